@@ -196,7 +196,13 @@ func runC08(ctx *harness.Ctx) {
 	useAvoid(ctx)
 	excluded := int64(0)
 	ctx.Rapid("sentence", ctx.Pick(15000, 300000), func(t *rapid.T) {
-		c := drawGen(t, "", drawDepth(t))
+		var c GenCase
+		if rapid.IntRange(0, 29).Draw(t, "long") == 0 {
+			c = drawGenLong(t, "", 2)
+			ctx.Class("long-list-sentence")
+		} else {
+			c = drawGen(t, "", drawDepth(t))
+		}
 		excluded += int64(c.S.Avoided)
 		cs := &harness.Case{Leg: "sentence", Entry: specificEntry(c.S.Kind).Name, Input: c.Text, Aux: map[string]string{"kind": c.S.Kind, "plain": gen.Plain(c.S.W)}}
 		ctx.Eval(1)
